@@ -25,19 +25,34 @@ FULL_CHUNKS = 256            # chunks of 256 x-values x all 65536 y-values
 DIRECTED_ALL = ["rs0", "rs0eh", "rs2", "rs2eh", "rs3", "rs3eh"]
 DIRECTED_QUICK = ["rs3eh", "rs0eh", "rs2"]      # every style once, both copies of the rounding helpers; the full cross product is thorough
 EH_DEFINES = ["HALF_ERRHANDLING_FLAGS=1", "HALF_ERRHANDLING_ERRNO=1"]
+LIBS = ["-lmpfr", "-lgmp", "-pthread"]      # -pthread: part 10 evaluates first calls in newly created threads
+# Part 10, call histories: (build, entry set, relation, number of argument-range shards).  Entry sets: "u" = the 25 unary + 14 float-like
+# entry points (39); "b1" / "b2" / "b4" = u + both sections b(x,c), b(c,x) of the 11 binary functions for the first 1 / 2 / 4 constants
+# c of {3.140625, -0.33325, 1, subnormal 0x0203} (61 / 83 / 127 entry points).  Relations: partner argument p(x) = x ("same"), -x ("neg"),
+# the next bit pattern ("next"), the neighbouring binade ("xor:0400"), the neighbouring mantissa ("xor:0001"), a constant ("const:<bits>").
+# Every walk covers ALL ordered pairs of its entry set on ALL 2^16 arguments.
+HIST_QUICK = [("fast", "b1", "same", 8), ("fast", "b1", "neg", 8), ("fast", "u", "next", 4), ("fast", "u", "const:7e00", 4),
+              ("eh", "u", "same", 2), ("eh", "u", "const:7d00", 4)]
+HIST_QUICK_DIRECTED = [("u", "same", 2)]
+HIST_THOROUGH = ([("fast", "b4", r, 32) for r in ("same", "neg")] +
+                 [("fast", "b2", r, 16) for r in ("next", "xor:0400", "xor:0001")] +
+                 [("fast", "u", "const:" + c, 4) for c in ("7e00", "7d00", "7c00", "fc00", "0000", "8000", "3c00", "0001", "7bff")] +
+                 [("eh", "b2", r, 16) for r in ("same", "neg")] + [("eh", "u", "next", 4)] +
+                 [("eh", "u", "const:" + c, 4) for c in ("7e00", "7d00", "7c00", "fc00", "0000", "8000", "3c00", "0001", "7bff")])
+HIST_THOROUGH_DIRECTED = [("b1", "same", 8), ("b1", "neg", 8), ("u", "next", 4)]
 
 
 def build(kind):
     if kind == "fast":
-        return vlib.compile_cxx(SRC, "c09", std="c++14", opt="-O2", san="none", libs=["-lmpfr", "-lgmp"])
+        return vlib.compile_cxx(SRC, "c09", std="c++14", opt="-O2", san="none", libs=LIBS)
     if kind.startswith("rs"):
         defs = ["HALF_ROUND_STYLE=" + kind[2]] + (EH_DEFINES if kind.endswith("eh") else [])
-        return vlib.compile_cxx(SRC, "c09" + kind, std="c++14", opt="-O2", san="none", libs=["-lmpfr", "-lgmp"], defines=defs)
+        return vlib.compile_cxx(SRC, "c09" + kind, std="c++14", opt="-O2", san="none", libs=LIBS, defines=defs)
     if kind == "eh":
         # the library's error handling compiled in: detail::raise/select/rounded/... take their `#if HALF_ERRHANDLING` branches
-        return vlib.compile_cxx(SRC, "c09eh", std="c++14", opt="-O2", san="none", libs=["-lmpfr", "-lgmp"],
+        return vlib.compile_cxx(SRC, "c09eh", std="c++14", opt="-O2", san="none", libs=LIBS,
                                 defines=["HALF_ERRHANDLING_FLAGS=1", "HALF_ERRHANDLING_ERRNO=1"])
-    return vlib.compile_cxx(SRC, "c09asan", std="c++14", opt="-O1", san="asan", libs=["-lmpfr", "-lgmp"])
+    return vlib.compile_cxx(SRC, "c09asan", std="c++14", opt="-O1", san="asan", libs=LIBS)
 
 
 def ranges(n):
@@ -57,7 +72,9 @@ def run(ctx):
     fast, asan, eh = bins["fast"], bins["asan"], bins["eh"]
 
     # soft deadline: no new harness process is started after it; whatever was not started is reported as a cap
-    soft = min(ctx.deadline - 75, ctx.t0 + (170 if quick else 1560))
+    # (quick: 170 s counted from the END of the builds - on a heavily loaded machine six cold builds alone used to consume the whole
+    #  allowance and every group was reported as "not started" - but never later than 75 s before the tier's deadline)
+    soft = min(ctx.deadline - 75, (time.time() + 170) if quick else (ctx.t0 + 1560))
     skipped = {}
     all_samples = []
     lock = threading.Lock()
@@ -82,6 +99,24 @@ def run(ctx):
     # 2. rounding / decomposition functions on all 2^16 inputs against the float functions
     for fn in FLOATLIKE:
         jobs.append(job("floatlike", fast, ["--floatlike", fn], "c09"))
+    # 10. call histories (scheduled early: cheap, no MPFR unless a result differs from the isolated sweep).  All ordered pairs (f, g) of
+    #     entry points as consecutive calls on related arguments, on all 2^16 arguments, each result compared with g's own isolated
+    #     ascending sweep and, when different, judged by the independent reference; first calls in newly created threads.
+    hist = list(HIST_QUICK if quick else HIST_THOROUGH)
+    for kind in directed:
+        hist += [(kind, s, r, n) for s, r, n in (HIST_QUICK_DIRECTED if quick else HIST_THOROUGH_DIRECTED)]
+    for kind, hset, rel, n in hist:
+        tag = {"fast": "c09", "eh": "c09-eh"}.get(kind, "c09-" + kind)
+        for lo, hi in ranges(n):
+            jobs.append(job("history:" + kind, bins[kind], ["--history", "walk", hset, rel, str(lo), str(hi)], tag))
+    if quick:
+        for k in range(4):
+            jobs.append(job("history:fresh-thread", fast, ["--history", "fresh", "u", "alpha1", str(k), "4"], "c09"))
+    else:
+        for k in range(64):
+            jobs.append(job("history:fresh-thread", fast, ["--history", "fresh", "u", "full", str(k), "64"], "c09"))
+        for k in range(8):
+            jobs.append(job("history:fresh-thread", fast, ["--history", "fresh", "b2", "alpha2", str(k), "8"], "c09"))
     # 3. ldexp / scalbn / scalbln: all halves x {-60..60, INT_MIN, INT_MAX}
     for fn in SCALE:
         for lo, hi in ranges(2):
@@ -240,7 +275,20 @@ def run(ctx):
         "the float-like functions (rint nearbyint lrint llrint against trunc / ceil / floor of the float, the others unchanged), ldexp scalbn scalbln on all halves x the exponent alphabet, the 11 binary functions on all ordered pairs of the 1000-value alphabet and of the special-operand set, "
         "hypot(x,y,z) on the 315-value cube (directed integer square root) and the NaN triples" +
         (" (fast reference rounded in that direction, MPFR on undecided and mismatching cases)" if quick else " (MPFR on every pair and every triple)") +
-        "; counted as evaluations, not again as distinct. distinct_nontrivial = cases whose reference result is finite, non-zero and different from the argument(s) (for integer-valued results: different from the argument); every (function, argument) is visited once, so cases are distinct by construction; "
+        "; counted as evaluations, not again as distinct; "
+        "(10) CALL-HISTORY dimension: the result of a call must not depend on the calls made before it. Entry points: the 25 unary functions (sincos with both outputs) + the 14 float-like functions (set u, 39), "
+        "plus both sections b(x,c) and b(c,x) of the 11 binary functions for constants c from {3.140625, -0.33325, 1, subnormal 0x0203} (sets b1 / b2 / b4 = 61 / 83 / 127 entry points). For a set and a relation p between arguments "
+        "(same: p(x)=x; neg: -x; next: the next bit pattern; xor:0400 / xor:0001: neighbouring binade / mantissa; const:c: a fixed special value such as a quiet or signalling NaN, infinity, zero) and for EVERY one of the 2^16 arguments x, "
+        "all entry points are called along an Eulerian circuit of the complete directed graph with loops on the set, alternately on x and p(x), so that every ordered pair (f, g) occurs exactly once per lap as two consecutive calls "
+        "f(p(x)), g(x) resp. f(x), g(p(x)) (relations that are not involutions walk a second lap with the roles exchanged). Oracle: every call is compared with the value the same entry point returns in an ascending sweep of its own over all 2^16 arguments "
+        "(the history parts 1, 2, 4 judge against MPFR / the float functions; NaNs canonicalised, values C leaves unspecified masked); a differing result is then judged by the independent reference of parts 1, 2, 4 (MPFR correctly rounded with the documented "
+        "tolerance, float functions, bit-pattern definitions) and reported only if it fails that judgement; before it is reported the history is minimised to a two-call history f(a), g(x) executed in a newly created thread, which is the replay. "
+        "Also every entry point on every argument of an alphabet as the FIRST library call of a newly created thread (empty history, initial thread_local state). " +
+        ("Quick tier: default build b1 x {same, neg}, u x {next, const:7e00}; error-handling build u x {same, const:7d00 (signalling NaN, raises the library's FE_INVALID flag)}; the three directed builds u x same; fresh-thread calls of set u on the 1000-value alphabet"
+         if quick else
+         "Thorough tier: default build b4 x {same, neg}, b2 x {next, xor:0400, xor:0001}, u x const:{7e00, 7d00, 7c00, fc00, 0000, 8000, 3c00, 0001, 7bff}; error-handling build b2 x {same, neg}, u x next, u x the nine constants; all six directed builds b1 x {same, neg}, u x next; "
+         "fresh-thread calls of set u on all 2^16 arguments and of set b2 on the 3976-value alphabet") +
+        "; counted as evaluations (history_walk_calls_compared_with_isolated_sweep), not as distinct. distinct_nontrivial = cases whose reference result is finite, non-zero and different from the argument(s) (for integer-valued results: different from the argument); every (function, argument) is visited once, so cases are distinct by construction; "
         "the alphabet sweeps overlap each other (and the full sweep) by design and are counted as evaluated.")
     ctx.assumptions += [
         "MPFR 4.2 / GMP are the reference; it is cross-checked on every MPFR-decided case against MPFR at 256 bits rounded by an independent integer routine, and where decisive against glibc long double; special values against glibc float. A reference disagreement is a harness error",
@@ -258,6 +306,9 @@ def run(ctx):
         "reading of the statement under a configured rounding style: 'the correctly rounded binary16 value of the mathematical result' is that result rounded in the configured direction (the library documents these functions as 'exact to rounding for all rounding modes'); "
         "all function groups were measured on the unmodified tree in all six directed builds before being judged (0 deviations, also for the 1-ULP functions against the directed reference), so none is left out; "
         "nexttoward, the three-argument hypot families beyond cube 0, the 3976-value pair alphabet and the full 2^32 pair sweep are not repeated in the directed builds",
+        "call histories (part 10): 'returns the correctly rounded value for every argument' is read as a statement about every call, whatever was called before on the same thread; histories are bounded to the walks stated in rule "
+        "(every ordered pair of entry points adjacent once per relation and argument, arguments of adjacent calls related by the stated relations); the state before a walk is whatever the walks on the preceding arguments left; "
+        "binary functions take part through sections with a constant operand only; concurrent calls from several threads (data races) are not enumerated, only first calls in a new thread",
         "fma and sqrt are not part of this check (C08)",
         "g++ 12 -O2 on x86-64 (plus an ASan/UBSan-bounds -O1 build over all unary inputs and the alphabet-1 pairs)",
     ]
